@@ -544,10 +544,27 @@ class C06(Monitor):
 class C12(Monitor):
     """forward: Simulation == execution (attributes and ledger), same state; router sims == fold of pair sims."""
 
+    @staticmethod
+    def same_offer(op):
+        """is this swap 'a swap of the same offer' as the Simulation of (named asset, named amount) taken before it?
+        Well-formed swaps are; so is ANY swap message naming a pair asset, unless the caller attaches coins of a pair asset
+        beyond the named offer (a donation in the same transaction legitimately moves the price)."""
+        sem = op["sem"]
+        if sem.get("well_formed"):
+            return True
+        p = sem["pair"]
+        if sem["named"] not in p.assets:
+            return False
+        ids = set(a[1] for a in p.assets)
+        for d, a in sem.get("funds", []):
+            if d in ids and not (d == sem["named"][1] and a == sem["named_amt"]):
+                return False
+        return True
+
     def on_step(self, st):
         w, acc = self.w, self.acc
         op = st.op
-        if op["kind"] == "swap" and op["sem"].get("well_formed"):
+        if op["kind"] == "swap" and self.same_offer(op):
             sem = op["sem"]
             p = sem["pair"]
             sim = sim_of(st)
